@@ -17,6 +17,14 @@ CHECKS = {
           "nesting of every Go type, random beyond.", TRUST, "DESIGN.md §4 C01"),
  "C03": C("same model with the gob normal form GFItem; GobEncode/GobDecode, per-type and binary pairs replayed; JsonRTTrace.tla judges",
           "As C01 for the gob/binary codec with nanoseconds and zones preserved.", TRUST, "DESIGN.md §4 C03"),
+ "C07": C("TLA+ machine Dispatch.tla (channels x names x hook toggling, invariants OneGoType/HooksIrrelevant/NoWrongType) model-checked; "
+          "the whole request space replayed on the registry, JSON and gob decoders with hooks unset and set; DispatchTrace.tla judges",
+          "Exhaustive: every vocabulary/generic/empty/outsider name x 7 channels x 2 hook settings executed on the real code.",
+          TRUST, "DESIGN.md §4 C07"),
+ "C09": C("TLA+ law module Equality.tla (laws chosen from the pair by the spec; consistency and non-vacuity model-checked); TLC generates "
+          "pairs per law from the case families; real ItemsEqual replayed incl. random deep values; EqualityTrace.tla judges",
+          "All case values against themselves (reflexivity), single-property identity mutations in both orders, id/type variants, "
+          "nil-like x non-nil combinations, value/pointer forms rotated; random deep values beyond.", TRUST, "DESIGN.md §4 C09"),
  "C10": C("TLA+ state machine Recipients.tla model-checked (6 invariants from the property's clauses); TLC prints every transition, the "
           "harness performs it on every addressable Go type; RecipientsTrace.tla judges recorded events incl. random larger values",
           "Exhaustive TLC check of the de-duplication design for all cuts of <=3 entries; every transition for <=2 entries over a "
@@ -37,6 +45,9 @@ CHECKS = {
           "all short lists replayed on ItemOrderTimestamp / sort.Slice; OrderTrace.tla judges",
           "Whole abstract space (17x17 pairs, lists <=4) on every object Go type in value and pointer form with zone presentations.",
           TRUST, "DESIGN.md §4 C17"),
+ "C20": C("TLA+ matrix NilMatrix.tla (helpers x nil kinds x positions with the allowed outcome classes, totality model-checked); every "
+          "cell executed on the real helper under recover(); NilMatrixTrace.tla judges outcome and callback-argument classes",
+          "Exhaustive: the whole matrix (66 top-level helpers + 14 container helpers x 15 nil kinds x positions).", TRUST, "DESIGN.md §4 C20"),
  "C19": C("TLA+ state machine (NatLang.tla, Set specified as a relation by its post-condition) model-checked by TLC; every "
           "(contents, op) pair and every pair of tag-distinct lists replayed on the real NaturalLanguageValues, random "
           "histories recorded from it, all judged by NatLangTrace.tla",
